@@ -112,9 +112,10 @@ class DisplayBPM(Unit):
 
     CFG = [(s, c) for s in ("SM", "SSC") for c in ("default", "SSC")]
 
-    def __init__(self, cfg):
+    def __init__(self, cfg, side=None):
         self.cfg = cfg
-        self.name = f"displaybpm[{cfg[0]}/{cfg[1]}]"
+        self.side = side          # for SSC simfile + SSC chart: verify the two outcomes of the split-timing rule separately (parallelism)
+        self.name = f"displaybpm[{cfg[0]}/{cfg[1]}{'/' + side if side else ''}]"
 
     def run(self, ex):
         import simfile.timing.displaybpm as db
@@ -136,6 +137,8 @@ class DisplayBPM(Unit):
         for m in [ms] + ([mc] if mc is not None else []):
             d = strval("DISPLAYBPM")
             ex.assume(z3.Implies(O.om_has(m, d), z3.Not(OSTR.is_none(O.om_get(m, d)))))
+        if self.side is not None:
+            ex.assume(cond if self.side == "chart-timing" else z3.Not(cond))
         kind, r = ex.run_function(fn, args, {"ignore_specified": ignore})
         use_chart = ex.branch(cond, "spec:use-chart")
         m = mc if use_chart else ms
@@ -185,7 +188,8 @@ class DisplayBPM(Unit):
         ex.prove("post:frame", O.map_of(simfile) == ms)
 
 
-UNITS = [TimingSource(), TimingDataInit()] + [DisplayBPM(c) for c in DisplayBPM.CFG]
+UNITS = [TimingSource(), TimingDataInit()] + [DisplayBPM(c) for c in DisplayBPM.CFG if c != ("SSC", "SSC")] + \
+        [DisplayBPM(("SSC", "SSC"), side) for side in ("chart-timing", "simfile-timing")]
 
 
 def witness_search(tier, seed):
